@@ -14,6 +14,22 @@ macro_rules! check {
 
 const MODEL: usize = 15;
 
+// Native replay only (cfg(test)): CBMC's pointer checks report a write past the end of the vector's allocation, which a
+// native run performs silently; the guard-padding allocator in k11_coll.rs (one #[global_allocator] per crate) makes the
+// replayed counterexample observable, so that such a counterexample is confirmed instead of ending as "not reproduced".
+#[cfg(test)]
+extern "Rust" {
+    fn verif_guards_intact() -> bool;
+}
+fn native_heap_intact() -> bool {
+    #[cfg(test)]
+    {
+        return unsafe { verif_guards_intact() };
+    }
+    #[allow(unreachable_code)]
+    true
+}
+
 fn make_vec(capsel: u8, init: &[u8; 3], len0: usize) -> Vec<u8> {
     // concrete capacities (a symbolic allocation size is far more expensive for CBMC than a 4-way choice)
     let mut v: Vec<u8> = if capsel == 0 {
@@ -157,6 +173,7 @@ fn k12_step_vec() {
     kani::cover!(mlen == len0 + 3 && capsel == 0, "3-byte append into an unallocated vector reachable");
     kani::cover!(mlen == len0 + 2 && len0 == 3, "append forcing a reallocation of a full vector reachable");
     kani::cover!(a > b, "inverted reservation reachable");
+    check!(native_heap_intact(), "no write went past the end of a heap allocation (native replay only; CBMC's pointer checks under Kani)");
     core::mem::forget(v);
 }
 
@@ -201,6 +218,7 @@ fn k12_hist_vec_3() {
         }
     }
     kani::cover!(mlen == 12, "longest history reachable");
+    check!(native_heap_intact(), "no write went past the end of a heap allocation (native replay only; CBMC's pointer checks under Kani)");
     core::mem::forget(v);
 }
 
@@ -233,6 +251,7 @@ fn k12_hist_vec_fresh_4() {
         }
     }
     kani::cover!(mlen == 12, "longest history reachable");
+    check!(native_heap_intact(), "no write went past the end of a heap allocation (native replay only; CBMC's pointer checks under Kani)");
     core::mem::forget(v);
 }
 
@@ -265,5 +284,6 @@ fn k12_hist_vec_fresh_5() {
         }
     }
     kani::cover!(mlen == 15, "longest history reachable");
+    check!(native_heap_intact(), "no write went past the end of a heap allocation (native replay only; CBMC's pointer checks under Kani)");
     core::mem::forget(v);
 }
